@@ -2592,12 +2592,11 @@ def distributed_shampoo(
     errors = metrics.inverse_pth_root_errors
     errors = errors.reshape((-1, 1, 1))
     predicate = jnp.logical_or(
-        jnp.isnan(errors),
-        errors >= inverse_failure_threshold).astype(new_preconditioners.dtype)
-    # TODO(rohananil): Check for numerical instabilities.
-    new_conditional_preconditioners = (
-        predicate * global_stats.preconditioners +
-        (1.0 - predicate) * new_preconditioners)
+        jnp.isnan(errors), errors >= inverse_failure_threshold)
+    # Select rather than blend arithmetically: a rejected root may contain
+    # NaN/Inf, and 0 * NaN would poison the preconditioner that is kept.
+    new_conditional_preconditioners = jnp.where(
+        predicate, global_stats.preconditioners, new_preconditioners)
     new_global_stats = GlobalShardedParameterStats(
         new_stacked_padded_statistics, new_conditional_preconditioners,
         global_stats.exponents)
